@@ -36,6 +36,11 @@ func (x *Exec) buildFrame(st *State) {
 		case strings.HasPrefix(loc, "world except "):
 			var ex []string
 			for _, p := range worldExcept(loc) {
+				if strings.HasPrefix(p, "ghost ") {
+					// the function must not run an operation whose contract names this ghost
+					ex = append(ex, "ghost:"+strings.TrimSpace(strings.TrimPrefix(p, "ghost ")))
+					continue
+				}
 				ex = append(ex, x.typePrefix(p))
 			}
 			st.frame = append(st.frame, frameLoc{Heap: true, Except: ex})
@@ -119,12 +124,20 @@ func (x *Exec) frameCheck(st *State, ins ssa.Instruction, key, root string, idx 
 		if f.Heap {
 			excepted := false
 			for _, p := range f.Except {
+				if strings.HasPrefix(p, "ghost:") && key == "*" {
+					continue // an opaque callee has no operation on the objects a bookkeeping ghost describes
+				}
 				if key == "*" || key == p || strings.HasPrefix(key, p+".") || strings.HasPrefix(key, p+"#") {
 					excepted = true
 				}
 				if strings.HasPrefix(key, "*world:") {
 					// a callee that modifies the world except its own list: every prefix this function
-					// must leave alone has to be on the callee's list too
+					// must leave alone has to be on the callee's list too. Bookkeeping ghosts only change
+					// through contracts that name them (a callee that does is checked under the ghost's
+					// own key), so a ghost exception asks nothing of a callee's world clause.
+					if strings.HasPrefix(p, "ghost:") {
+						continue
+					}
 					on := false
 					for _, q := range strings.Split(strings.TrimPrefix(key, "*world:"), ",") {
 						if q != "" && (q == p || strings.HasPrefix(p, q+".")) {
